@@ -15,15 +15,18 @@ class C01(Prop):
             'and bounded recursion, global variables - weights favour empty bodies, zero- and one-trip loops, break at every legal depth, '
             'local inside loops; plus the exhaustive set of all token sequences up to 5 (quick) / 6 (thorough) tokens over a reduced '
             'control-flow alphabet, and a malformed fraction. Each is evaluated on a fresh interpreter under an instruction limit. '
+            'Each source is also compiled without running (kind c1c) and the emitted bytecode compared cell by cell with the mirror\'s '
+            'and with Struct.layout_program of the parsed tree. '
             'Three-way comparison: implementation vs the compiled mirror (Build.v + Vm.v) vs the structural evaluator (Struct.v): first '
             'error (kind, payload, token), data stack, variables, output, loop stack, call depth. non-trivial = distinct program with at '
             'least one control structure')
 
     def classify(self, line):
-        return 'c1'
+        return line.split(' ')[0]
 
     def nontrivial(self, line):
-        src = bytes.fromhex(line.split(' ')[2]).decode('utf-8', 'replace') if line.split(' ')[2] != '-' else ''
+        h = line.split(' ')[2 if line.startswith('c1 ') else 1]
+        src = bytes.fromhex(h).decode('utf-8', 'replace') if h != '-' else ''
         return any(k in src.split() for k in ('if', 'do', 'begin', 'case', ':'))
 
     def canon_impl(self, s):
@@ -74,10 +77,57 @@ class C01(Prop):
             cs.append('c1 6000 %s' % hexsrc(': f %s ; %s f' % (body, args)))
         n = 2500 if not thorough else 60000
         for i in range(n):
-            g = Gen(rng, meta=False, bad=0.03 if i % 5 else 0.12, io=(i % 3 == 0), reals=False)
+            g = Gen(rng, meta=False, bad=0.03 if i % 5 else 0.12, io=(i % 3 == 0), reals=False, plain=(i % 4 != 0))
             # restrict to the grammar of C01: no builders/tags/let/foreach beyond what Struct.v parses -> those become unsupported
             cs.append('c1 6000 %s' % hexsrc(g.program()))
+        # the same sources compiled only: the emitted bytecode against the compiled mirror and against the jump-resolved layout
+        # of the parsed tree (Struct.layout_program) - the object the compile-correctness theorems of Props/C01.v are about
+        cs += ['c1c %s' % c.split(' ')[2] for c in cs]
         return cs
+
+    BUILD_KINDS = ('EFlow', 'EParse', 'EUnknown', 'EExpectName', 'EExpectLit', 'ELetSyntax', 'EConst')
+
+    def meets(self, a, s):
+        """an ill-formed source (the structural parser refuses a control word: EFlow) must be refused at build time with nothing
+        executed; which of several defects of such a source the compiler names first is not part of the property (`of` is only
+        checked when its `endof` / `endcase` or the end of the source is reached)"""
+        if a == s:
+            return True
+        if a.startswith('R=ELimit '):
+            return True      # stopped by the instruction limit of the harness: decided by the second pass (group_check) under a larger limit
+        if s.startswith('R=EFlow '):
+            ra, _, resta = a.partition(' ')
+            _, _, rests = s.partition(' ')
+            return resta == rests and ra[2:].split('(')[0] in self.BUILD_KINDS
+        return False
+
+    def group_check(self, cases, impl):
+        """programs stopped by the instruction limit are run again under a limit 20 times larger; those that finish are compared
+        with both models under that limit, those that do not must not have finished structurally either"""
+        from . import lib
+        idx = [i for i, (c, a) in enumerate(zip(cases, impl)) if c.startswith('c1 ') and a.startswith('R=ELimit')]
+        if not idx:
+            return 0, [], [], dict(rerun_under_larger_limit=0)
+        big = 120000
+        again = ['c1 %d %s' % (big, cases[i].split(' ')[2]) for i in idx]
+        a2 = lib.run_impl(self.exes[self.profiles[0]], again)
+        fails = []
+        fin = [k for k, a in enumerate(a2) if not a.startswith('R=ELimit')]
+        for k, a in enumerate(a2):
+            s1 = self.last_spec[idx[k]]
+            if a.startswith('R=ELimit') and s1 != '-' and not s1.startswith('R=ELimit'):
+                fails.append(('case: %s\nimplementation: %s\nspecification: %s' % (again[k], a, s1),
+                              'still running after %d instructions where the structural evaluation has finished' % big))
+        if fin:
+            m2, s2 = lib.run_model(lib.build_model_driver(), [again[k] for k in fin])
+            for k, m, s in zip(fin, m2, s2):
+                a = a2[k]
+                if s != '-' and not self.meets(a, s):
+                    fails.append(('case: %s\nimplementation: %s\nmirror-model: %s\nspecification: %s' % (again[k], a, m, s),
+                                  'differs from the structural evaluation'))
+                elif m != 'UNSUP' and a != m:
+                    fails.append(('case: %s\nimplementation: %s\nmirror-model: %s' % (again[k], a, m), 'differs from the compiled mirror'))
+        return len(idx), fails, [], dict(rerun_under_larger_limit=len(idx), finished_under_larger_limit=len(fin))
 
     def known(self, line, impl, spec):
         return None
